@@ -497,22 +497,25 @@ where
     let mut response_received = false;
     let mut task_empty = true;
 
+    // The retry count of the tasks inherited from the previous connection must survive the first
+    // poll: a connection usually breaks in a later poll (the write succeeds, the peer closes
+    // afterwards), and forgetting the count there retries the same request forever.
+    let mut retry_times_opt: Option<usize> = None;
+
     future::poll_fn(
         |cx: &mut Context<'_>| -> Poll<Result<(), HandleConnErr<H::Task>>> {
-            let retry_times_opt = match retry_state_opt.take() {
-                Some(RetryState {
-                    retry_times,
-                    tasks: mut retry_tasks,
-                }) => {
-                    for task in retry_tasks.iter_mut() {
-                        task.log_event(TaskEvent::WritingQueueReceived);
-                        packets.push_back(task.get_packet());
-                    }
-                    tasks.extend(retry_tasks.drain(..));
-                    Some(retry_times)
+            if let Some(RetryState {
+                retry_times,
+                tasks: mut retry_tasks,
+            }) = retry_state_opt.take()
+            {
+                for task in retry_tasks.iter_mut() {
+                    task.log_event(TaskEvent::WritingQueueReceived);
+                    packets.push_back(task.get_packet());
                 }
-                None => None,
-            };
+                tasks.extend(retry_tasks.drain(..));
+                retry_times_opt = Some(retry_times);
+            }
 
             while let Poll::Ready(task_opt) = Pin::new(&mut task_receiver).poll_next(cx) {
                 match task_opt {
@@ -606,6 +609,10 @@ where
                 };
                 task.log_event(TaskEvent::ReceivedFromBackend);
                 handler.handle_task(task, packet_res);
+                if tasks.is_empty() {
+                    // Everything inherited has been answered: later failures start a new count.
+                    retry_times_opt = None;
+                }
             };
 
             if let Err(err) = read_res {
